@@ -86,7 +86,7 @@ proj_desc = st.one_of(
 def grid_cases(draw):
     region = draw(gen.regions(max_exp=4))
     mode = draw(st.sampled_from(["shape", "shape", "spacing", "spacing1", "coords1d", "coords2d"]))
-    case = dict(region=region, mode=mode, ncomp=draw(st.integers(1, 3)), projection=draw(proj_desc), gridder=draw(st.sampled_from(["analytic", "analytic", "analytic_region", "named", "trend", "knn", "checker"])),
+    case = dict(region=region, mode=mode, extra_seq=draw(st.sampled_from(vbuild.SEQS)), ncomp=draw(st.integers(1, 3)), projection=draw(proj_desc), gridder=draw(st.sampled_from(["analytic", "analytic", "analytic_region", "named", "trend", "knn", "checker"])),
                 adjust=draw(st.sampled_from(["spacing", "region"])), pixel=draw(st.booleans()), n_extra=draw(st.integers(0, 2)),
                 custom_dims=draw(st.booleans()), custom_names=draw(st.booleans()))
     if mode in ("shape", "coords1d", "coords2d"):
@@ -195,7 +195,7 @@ def check_grid(case, ctx):
         call.update(kw)
         n_extra = len(case["extra"])
         if n_extra:
-            call["extra_coords"] = case["extra"] if n_extra > 1 else case["extra"][0]
+            call["extra_coords"] = vbuild.seq(case["extra"] if n_extra > 1 else case["extra"][0], case.get("extra_seq", "list"))
         exp_e, exp_n = vd.grid_coordinates(region, meshgrid=False, **kw)
     with warnings.catch_warnings():
         warnings.simplefilter("ignore")
@@ -252,7 +252,7 @@ def profile_cases(draw):
         p2[1] = p1[1]
     elif shape_kind == "vertical":
         p2[0] = p1[0]
-    return dict(p1=p1, p2=p2, size=draw(st.integers(1, 30)), ncomp=draw(st.integers(1, 3)), projection=draw(proj_desc), custom_dims=draw(st.booleans()),
+    return dict(p1=p1, p2=p2, size=draw(st.integers(1, 30)), extra_seq=draw(st.sampled_from(vbuild.SEQS)), ncomp=draw(st.integers(1, 3)), projection=draw(proj_desc), custom_dims=draw(st.booleans()),
                 custom_names=draw(st.booleans()), n_extra=draw(st.integers(0, 2)), extra=[draw(st.one_of(gen.finite(-10, 10), st.just(0.0))) for _ in range(2)])
 
 
@@ -273,7 +273,7 @@ def check_profile(case, ctx):
         call["projection"] = proj
     extra = case["extra"][:case["n_extra"]]
     if extra:
-        call["extra_coords"] = extra if len(extra) > 1 else extra[0]
+        call["extra_coords"] = vbuild.seq(extra if len(extra) > 1 else extra[0], case.get("extra_seq", "list"))
     size = case["size"]
     table = g.profile(tuple(case["p1"]), tuple(case["p2"]), size, **call)
     ctx.check(isinstance(table, pd.DataFrame) and len(table) == size, "profile must return a DataFrame with 'size' rows")
@@ -311,7 +311,7 @@ def check_profile(case, ctx):
 # ---------------------------------------------------------------- scatter
 @st.composite
 def scatter_cases(draw):
-    return dict(region=draw(gen.regions(max_exp=4)), size=draw(st.integers(1, 60)), seed=draw(st.integers(0, 2**31 - 1)), ncomp=draw(st.integers(1, 3)),
+    return dict(region=draw(gen.regions(max_exp=4)), size=draw(st.integers(1, 60)), seed=draw(st.integers(0, 2**31 - 1)), extra_seq=draw(st.sampled_from(vbuild.SEQS)), ncomp=draw(st.integers(1, 3)),
                 projection=draw(proj_desc), gridder=draw(st.sampled_from(["analytic", "analytic_region", "checker"])), custom_dims=draw(st.booleans()),
                 n_extra=draw(st.integers(0, 1)))
 
@@ -335,7 +335,7 @@ def check_scatter(case, ctx):
     if proj is not None:
         call["projection"] = proj
     if case["n_extra"]:
-        call["extra_coords"] = 5.5
+        call["extra_coords"] = vbuild.seq(5.5, case.get("extra_seq", "list"))
     a = quiet(g.scatter, **call)
     b = quiet(g.scatter, **call)
     ctx.check(isinstance(a, pd.DataFrame) and len(a) == case["size"], "scatter must return a DataFrame with 'size' rows")
